@@ -12,6 +12,7 @@ import Enc.Model.Json.DynNumber
 import Enc.Spec.Json.DynNumber
 import Enc.Model.Json.Own
 import Enc.Spec.Json.Cyclic
+import Enc.Driver.JsonFields
 /-! line-protocol handlers, area `json` (syntax layer). -/
 namespace Enc.Driver.Json
 open Enc
@@ -131,6 +132,10 @@ def handle (op : String) (args : List String) : Option (String × String × Stri
   | "json.encstr", [html, h] => do
     let s ← fromHex h
     pure (toHex (Model.Json.encodeString s (html == "1")), toHex (Spec.Json.appendString s (html == "1")), "")
+  | "json.fields", [d] => Driver.JsonFields.run d
+  | "json.fieldsnil", [d] => Driver.JsonFields.runNil d
+  | "json.fieldsvis", [d] => Driver.JsonFields.runVisible d
+  | "json.fieldsdec", [cpu, d, obj] => Driver.JsonFields.runDecode cpu d obj
   | "json.encint", [n] => do
     let i ← n.toInt?
     pure (toHex (Model.Json.appendInt i), toHex (Spec.Json.intString i), "")
